@@ -302,6 +302,15 @@ def parseCase (impl : Impl) (c : Case) : Parsed :=
     let (mMin, mMax) ← (match setTLSVers specMin specMax specExts with
       | .ok p => some p
       | .error _ => none)
+    -- per-share keys: `kx=<Mlkem 0|1>,<MlkemEcdhe 0|1>,<EcdheKeys groups, +-separated>,<MlkemKeys groups>`
+    let plusNats := fun (s : String) => if s == "-" || s == "" then some [] else (s.splitOn "+").mapM String.toNat?
+    let (mlkem, mlkemEcdhe, keyGroups, mlkemGroups) ← (match listOf (c.output.getD "kx" "") with
+      | [] => some (hybrid, hybrid, [], [])
+      | [a, b, g1, g2] => do
+        let g1 ← plusNats g1
+        let g2 ← plusNats g2
+        pure (a == "1", b == "1", g1, g2)
+      | _ => none)
     let pskSuite := hex16? (c.output.getD "psks" "-")
     let recv ← hex16? (c.output.getD "recv" "")
     let eeAlpn ← (match c.output.getD "ee" "-" with
@@ -313,7 +322,8 @@ def parseCase (impl : Impl) (c : Case) : Parsed :=
       | "-" => some none
       | s => (parseState s).map some)
     let ctx : ClientCtx := ctxOfVers mMin mMax ech
-      { cfgMin := cfgMin, cfgMax := cfgMax, ech := ech, ecdheGroup := ecdhe, hybridKeys := hybrid, pskSuite := pskSuite }
+      { cfgMin := cfgMin, cfgMax := cfgMax, ech := ech, ecdheGroup := ecdhe, hybridKeys := hybrid, pskSuite := pskSuite,
+        mlkem := mlkem, mlkemEcdhe := mlkemEcdhe, keyGroups := keyGroups, mlkemGroups := mlkemGroups }
     let resp : Response := { hello1 := h1, hello2 := h2, recVersion := recv, eeAlpn := eeAlpn, cert := cert,
                              skxCurve := skx, restOk := true }
     pure { mode := mode, offer := offer, ctx := ctx, resp := resp, hellos := hellos,
